@@ -27,6 +27,12 @@ CHECKS = {
     ref="DESIGN.md §4 C10",
     note="Trusted: the independent container writers. zlib encoding by flate2.",
     technique="round-trip/conservation oracle over generated containers"),
+ "C11": dict(
+    cat="exploration",
+    text="Runtime monitoring by round trip through an independent WOFF2 encoder that exercises every encoder choice the format allows; the decoded tables are judged by an independent sfnt/glyf/hmtx reader against the abstract font, and the variable-length integer codecs are covered exhaustively.",
+    ref="DESIGN.md §4 C11",
+    note="Trusted: the harness's WOFF2 encoder (triplet encoder self-tested against the W3C decoding table at setup) and glyf/hmtx readers. Brotli streams are stored (uncompressed meta-blocks).",
+    technique="round-trip oracle through an independent encoder + exhaustive varint sub-spaces"),
  "C13": dict(
     cat="exploration",
     text="Runtime monitoring against an exact rational reference model of fvar/avar normalisation over generated axis triples, segment maps and user values, with exhaustive coverage of all 65536 F2Dot14 values for the fixed-point conversions.",
